@@ -22,7 +22,9 @@ EXTENDS Integers, Sequences, FiniteSets, TLC, Json
 
 CONSTANTS Sigs,     \* signal classes modelled in this configuration
           WithExit, \* BOOLEAN: also model the EXIT condition
-          MaxH      \* bound on the history length
+          MaxH,     \* bound on the history length
+          UniformInit \* BOOLEAN: only the two start-ups "everything default" / "everything ignored"
+                      \* (wide configurations); FALSE: every combination of inherited dispositions
 
 AllSig   == {"USR1", "CHLD", "INT", "QUIT", "TERM", "TSTP", "KILL", "STOP"}
 Conds    == Sigs \cup (IF WithExit THEN {"EXIT"} ELSE {})
@@ -64,6 +66,7 @@ IsVac(e)    == e.act = "V"
 
 Init == /\ init \in [Sigs -> {"D", "I"}]
         /\ \A s \in Sigs \cap {"KILL", "STOP"} : init[s] = "D"    \* cannot be ignored
+        /\ UniformInit => \A s, t \in Sigs \ {"KILL", "STOP"} : init[s] = init[t]
         /\ ent = [c \in Conds |-> Vacant]
         /\ sys = init
         /\ blk = [s \in Sigs |-> FALSE]
@@ -315,7 +318,12 @@ InitiallyIgnoredRefused ==
        ELSE /\ (IsVac(ent'[s]) \/ ent'[s].orig = "I")          \* still in that condition
             /\ (o.op = "set_action" /\ o.c = s) => (o.r = "ignored" /\ sys'[s] = sys[s])
     ]_vars
-\* an entry says "inherited" only for what was inherited
+\* an entry says "inherited" only for what was inherited.
+\* NOT part of `Consistent`: this model, being a transcription of trap/state.rs,
+\* violates it (GS_EnterSubshell with option "Ignore" keeps orig = "I" on an entry
+\* whose inherited action was Default) - finding C11-F1.  The verdict on the code
+\* comes from the same invariant in TrapAbs ("inv:an inherited entry shows the
+\* inherited action"), evaluated on what the real TrapSet shows.
 InheritedIsTrue ==
   \A s \in Sigs : ent[s].orig = "I" => ent[s].act = (IF init[s] = "I" THEN "I" ELSE "D")
 
